@@ -84,6 +84,26 @@ def canon(shape, which, dtype, exact=True, cplx=False):
     return np.asarray(x).astype(dt).reshape(tuple(shape))
 
 
+SPECIAL_VALUES = {'nan': float('nan'), '+inf': float('inf'), '-inf': float('-inf'), '-0': -0.0}
+SPECIALS = [(v, pos) for v in ('nan', '+inf', '-inf', '-0') for pos in ('first', 'middle', 'last')]
+
+
+def inject(arr, special, shift=0):
+    """A copy of the floating / complex array with one special value (NaN, +-inf, -0.0) at the first / middle /
+    last entry in C order (for a power-space element: in the first / a middle / the last component)."""
+    if special is None:
+        return arr
+    arr = np.array(arr)
+    if arr.dtype.kind not in 'fc' or arr.size == 0:
+        raise NotApplicable('special values need a floating dtype')
+    name, pos = special
+    idx = {'first': 0, 'middle': arr.size // 2, 'last': arr.size - 1}[pos]
+    idx = (idx + shift) % arr.size
+    flat = arr.reshape(-1)
+    flat[idx] = SPECIAL_VALUES[name]
+    return flat.reshape(arr.shape)
+
+
 def kind_of(r):
     from odl.space.base_tensors import Tensor
     from odl.discr.discr_space import DiscretizedSpaceElement
@@ -135,6 +155,10 @@ def ulp_distance(a, b):
         return max(ulp_distance(a.real, b.real), ulp_distance(a.imag, b.imag))
     if a.dtype.kind == 'f':
         both_nan = np.isnan(a) & np.isnan(b)
+        # equal numbers incl. the sign of zero (-0.0 and +0.0 are different answers), NaN only with NaN
+        zero_sign = (a == 0) & (b == 0) & (np.signbit(a) != np.signbit(b))
+        if np.any(zero_sign):
+            return LIM
         eq = (a == b) | both_nan
         if np.all(eq):
             return 0
@@ -263,7 +287,7 @@ class NotApplicable(Exception):
     pass
 
 
-def run_case(case, uf, dtype, variant=0, exact_inputs=True, cplx=False, layout='C'):
+def run_case(case, uf, dtype, variant=0, exact_inputs=True, cplx=False, layout='C', special=None):
     """Execute one configuration with one ufunc and one dtype on real ODL elements.
     Returns the event for Trace_Ufunc (without id) or raises NotApplicable (NumPy itself refuses the call on
     plain arrays, or the out object cannot be built).
@@ -284,6 +308,10 @@ def run_case(case, uf, dtype, variant=0, exact_inputs=True, cplx=False, layout='
     if name == 'ldexp':                       # the exponent operand of ldexp is an integer array
         dt_y = np.dtype('int64') if dt.kind == 'f' else dt
         ys = np.abs(canon(ys.shape, 'y', 'int64')).astype(dt_y)
+    if special is not None:               # one NaN / +-inf / -0.0 in each operand (at different entries)
+        xs = inject(xs, special)
+        if dt_y.kind in 'fc':
+            ys = inject(ys, special, shift=1)
     dtk = GIVEN_DTYPE[dt.name] if case['dtkw'] == 'given' else 'none'
     kw = build_kwargs(case, dtk)
     idx = list(case['idx'])
@@ -350,7 +378,8 @@ def run_case(case, uf, dtype, variant=0, exact_inputs=True, cplx=False, layout='
     ev = {'k': 'uf', 'case': case, 'name': name, 'dt': dt.name, 'dtk': dtk, 'variant': variant, 'err': '',
           'rkind': [], 'rshape': [], 'rdtype': [], 'ref_shape': [list(r.shape) for r in refs],
           'ref_dtype': [r.dtype.name for r in refs], 'ulp': [], 'isout': [], 'outulp': [], 'unchanged': 1,
-          'layout': layout, 'wrapshare': wrapshare, 'backulp': 0, 'gaps': 1, 'exact': 0, 'xin': [], 'yin': [], 'b': [[2, 1], [0, 1]], 'vals': []}
+          'layout': layout, 'wrapshare': wrapshare, 'backulp': 0, 'gaps': 1, 'exact': 0,
+          'special': list(special) if special else [], 'xin': [], 'yin': [], 'b': [[2, 1], [0, 1]], 'vals': []}
     info = {}
     with np.errstate(all='ignore'):
         try:
@@ -395,7 +424,7 @@ def run_case(case, uf, dtype, variant=0, exact_inputs=True, cplx=False, layout='
     ev['gaps'] = int(all(gaps_intact(bk) for bk in backs))
     # exact ufuncs: hand the inputs and the observed values to the specification
     exact_name = name in (EXACT_UNARY if nin == 1 else EXACT_BINARY)
-    if exact_name and exact_inputs and not (cplx and dt.kind == 'c' and name in REAL_ONLY) and \
+    if exact_name and exact_inputs and special is None and not (cplx and dt.kind == 'c' and name in REAL_ONLY) and \
             (method in ('call', 'at') or name in ('add', 'subtract', 'multiply', 'maximum', 'minimum',
                                                     'logical_and', 'logical_or')):
         xv, yv, vv = cvals(xs), cvals(ys), cvals(observed[0])
@@ -422,16 +451,18 @@ def wrap_event(kind, shape, dtype, order, variant=0):
 
 
 # ------------------------------------------------------------------ legacy interface
-def legacy_event(kind, shape, dtype, name, form, variant=0):
+def legacy_event(kind, shape, dtype, name, form, variant=0, special=None):
     """x.ufuncs.<name>(...) against the NumPy call on the element.
     form: 'plain' | 'out' (element out) | 'out-array' | reductions 'sum' ... are passed as name with form 'reduce'."""
     dt = np.dtype(dtype)
     sp = make_space(kind, shape, dt, variant)
     xs, ys = canon(shape, 'x', dt, False), canon(shape, 'y', dt, False)
+    if special is not None:
+        xs = inject(xs, special)
     x, y = sp.element(xs.copy()), sp.element(ys.copy())
     ev = {'k': 'legacy', 'kind': kind, 'shape': list(shape), 'dt': dt.name, 'name': name, 'form': form,
           'variant': variant, 'err': '', 'nerr': '', 'lkind': [], 'nkind': [], 'lshape': [], 'nshape': [],
-          'ldtype': [], 'ndtype': [], 'ulp': [], 'isout': [],
+          'ldtype': [], 'ndtype': [], 'ulp': [], 'isout': [], 'special': list(special) if special else [],
           'nout': 1 if form == 'reduce' else int(getattr(np, name).nout)}
     info = {}
     red = {'sum': np.add, 'prod': np.multiply, 'min': np.minimum, 'max': np.maximum}
